@@ -729,6 +729,41 @@ fn interference(ctx: &Ctx) {
         "pool": pool.len(), "sets": sets.len(), "settings": cfgs.iter().map(|c| c.name()).collect::<Vec<_>>(), "pairs": pairs.load(Ordering::Relaxed), "triple_sub_pool": sub.len(), "triples": triples.load(Ordering::Relaxed)}));
 }
 
+/// Sets with a hundred and more test cases: the same set built concurrently on 8 threads, in the given, reversed and
+/// rotated list order. Work that is split by the number of test cases (chunks, workers, batches) must not show.
+fn many_test_cases(ctx: &Ctx) {
+    let u = u_many(150);
+    let picked: Vec<usize> = (0..u.len()).filter(|i| [64usize, 99, 100, 101, 128, 150].contains(&u.sets[*i].len())).collect();
+    let cfgs = [Cfg::new(0), Cfg::new(R | E)];
+    for &i in &picked {
+        let t = u.set(i);
+        for c in &cfgs {
+            let expect = fresh_thread_build(*c, &canonical(&t));
+            let mut lists = vec![t.clone()];
+            let mut r = t.clone();
+            r.reverse();
+            lists.push(r);
+            let mut rot = t.clone();
+            rot.rotate_left(t.len() / 3);
+            lists.push(rot);
+            let outs: Vec<Result<String, String>> = std::thread::scope(|sc| {
+                let hs: Vec<_> = (0..8).map(|k| {
+                    let l = lists[k % lists.len()].clone();
+                    sc.spawn(move || c.build(&l))
+                }).collect();
+                hs.into_iter().map(|h| h.join().unwrap_or_else(|_| Err("thread panicked".into()))).collect()
+            });
+            ctx.run.evals.fetch_add(8, Ordering::Relaxed);
+            ctx.run.mark_nontrivial(hash_case(&t, c));
+            if let Some(bad) = outs.iter().find(|o| **o != expect) {
+                ctx.run.violation(viol("C10", "determinism", format!("many-test-cases:concurrent-or-reordered-build-differs n={}", t.len()), &t.iter().take(6).cloned().collect::<Vec<_>>(), c, bad.as_deref().unwrap_or("<panic>"),
+                    json!({"test_cases": t.len(), "first_six_shown": true, "expected_prefix": expect.as_deref().unwrap_or("").chars().take(200).collect::<String>(), "distinct_outputs": outs.iter().collect::<BTreeSet<_>>().len()})));
+            }
+        }
+    }
+    ctx.run.space(json!({"engine": "8 concurrent builds per case in three list orders (SAMPLING of schedules, labelled as such) compared with a fresh sequential build", "universe": u.name, "sets_with_64_99_100_101_128_150_test_cases": picked.len(), "settings": "{}, r+e"}));
+}
+
 /// Long test cases with thousands of repeated-substring candidates: 24 builds each on 24 brand-new threads (fresh
 /// hash seeds per map instance and per thread) must agree. This SAMPLES hash seeds -- the seam explorer cannot
 /// enumerate the orders of a map with two thousand entries -- and is labelled so.
@@ -757,6 +792,7 @@ pub fn run(ctx: &Ctx) {
     h_engine(ctx);
     interference(ctx);
     many_candidates(ctx);
+    many_test_cases(ctx);
     orders(ctx);
     n_engine(ctx);
     lazy_tables(ctx);
